@@ -38,6 +38,31 @@ def ceil_int(x):
     return -z3.ToInt(-x)
 
 
+KIDX = z3.Function("kidx", I, I, I, I)
+
+
+def use_kidx(u):
+    """kidx(K, a, j) = K*a - (K-j-1): index of the j-th child of cell a; injective for 0 <= j < K (lemma, proved by z3)"""
+    if "kidx" in u.used:
+        return
+    u.used.add("kidx")
+    K, a, b, j, j2 = z3.Ints("kx_K kx_a kx_b kx_j kx_j2")
+    IM = num.use_imul(u)
+    u.bg.append(z3.ForAll([K, a, j], KIDX(K, a, j) == IM(K, a) - (K - j - 1), qid="kidx-def", patterns=[KIDX(K, a, j)]))
+    u.bg.append(z3.ForAll([a, j], KIDX(2, a, j) == 2 * a - (1 - j), qid="kidx-def2", patterns=[KIDX(2, a, j)]))
+    u.bg.append(z3.ForAll([K, a, b, j, j2], z3.Implies(z3.And(K >= 1, j >= 0, j < K, j2 >= 0, j2 < K, KIDX(K, a, j) == KIDX(K, b, j2)),
+                                                      z3.And(a == b, j == j2)),
+                          qid="kidx-injective", patterns=[z3.MultiPattern(KIDX(K, a, j), KIDX(K, b, j2))]))
+    from .engine import Obl
+    lem = z3.ForAll([K, a, b, j, j2], z3.Implies(z3.And(K >= 1, j >= 0, j < K, j2 >= 0, j2 < K,
+                                                     K * a - (K - j - 1) == K * b - (K - j2 - 1)), z3.And(a == b, j == j2)))
+    ob = Obl(u.uid, "lemma", "kidx-injective", [], lem, {"C03"})
+    ob.own_bg = []
+    ob.trail = ""
+    if not u.dry:
+        u.obls.append(ob)
+
+
 def use_lsum(ev):
     if "lsum" not in ev.u.used:
         ev.u.used.add("lsum")
@@ -300,6 +325,10 @@ def spec_call(ev, n, e):
         return _real(ev, ev.ev(e.args[0]), e)
     if n == "xr":
         return ev.it.coerce(ev.ev(e.args[0]), FLOAT, ev.st, e, ev.frame, spec=True)
+    if n == "kidx":
+        K, a, j = [_int(ev, ev.ev(x), e).t for x in e.args]
+        use_kidx(ev.u)
+        return Val(KIDX(K, a, j), INT)
     if n == "arity_of":
         v = ev.ev(e.args[0])
         t = ARITY(v.t)
@@ -518,6 +547,11 @@ def lib_call(ev, full, args, kw, node, want):
         st.pc.append(z3.ForAll([k], z3.Implies(z3.And(k >= 0, k < n), inner[k] == a + z3.ToReal(k) * (b - a) / z3.ToReal(n - 1)),
                                qid=QID(), patterns=[inner[k]]))
         st.pc += [inner[0] == a, inner[n - 1] == b]
+        A.add("np.linspace: consecutive values differ by (b-a)/(n-1) and are non-decreasing when a <= b (real arithmetic)")
+        st.pc.append(z3.ForAll([k], z3.Implies(z3.And(k >= 0, k < n - 1),
+                                               z3.And(inner[k + 1] - inner[k] == (b - a) / z3.ToReal(n - 1),
+                                                      z3.Implies(a <= b, inner[k] <= inner[k + 1]))),
+                               qid="linspace-step", patterns=[inner[k]]))
         return ev.lalloc(REAL, n, inner)
     if full == "copy.deepcopy":
         A.add("copy.deepcopy(list of lists of numbers): fresh outer and inner lists with equal values")
@@ -556,20 +590,21 @@ def deepcopy(ev, L, node):
         nlen2 = fresh("dc_len", len2.sort())
         nelt2 = fresh("dc_elt", elt2.sort())
         r = z3.Int("dc_r")
+        k = z3.Int("dc_k")
         inside = z3.And(r >= first, r < first + n)
-        st.pc.append(z3.ForAll([r], z3.And(
-            z3.Implies(inside, z3.And(nlen2[r] == len2[src[r - first]], nelt2[r] == elt2[src[r - first]])),
-            z3.Implies(z3.Not(inside), z3.And(nlen2[r] == len2[r], nelt2[r] == elt2[r]))), qid=QID(), patterns=[nlen2[r]]))
-        st.pc.append(z3.ForAll([r], z3.And(
-            z3.Implies(inside, nelt2[r] == elt2[src[r - first]]),
-            z3.Implies(z3.Not(inside), nelt2[r] == elt2[r])), qid=QID(), patterns=[nelt2[r]]))
-        u.put_arr(st, "len:" + e2, nlen2)
-        u.put_arr(st, "elt:" + e2, nelt2)
         len1 = u.get_arr(st, "len:" + e1, el)
         elt1 = u.get_arr(st, "elt:" + e1, el)
         inner = fresh("dc_outer", elt1.sort().range())
-        k = z3.Int("dc_k")
-        st.pc.append(z3.ForAll([k], z3.Implies(z3.And(k >= 0, k < n), inner[k] == first + k), qid=QID(), patterns=[inner[k]]))
+        # the k-th inner list of the copy is the fresh object first+k and holds the values of the k-th inner list of the source
+        st.pc.append(z3.ForAll([k], z3.Implies(z3.And(k >= 0, k < n),
+                                               z3.And(inner[k] == first + k, nlen2[inner[k]] == len2[src[k]],
+                                                      nelt2[inner[k]] == elt2[src[k]])),
+                               qid="deepcopy-inner", patterns=[inner[k], src[k]]))
+        # everything outside the fresh block is untouched
+        st.pc.append(z3.ForAll([r], z3.Implies(z3.Not(inside), z3.And(nlen2[r] == len2[r], nelt2[r] == elt2[r])),
+                               qid="deepcopy-frame", patterns=[nlen2[r], nelt2[r]]))
+        u.put_arr(st, "len:" + e2, nlen2)
+        u.put_arr(st, "elt:" + e2, nelt2)
         u.put_arr(st, "len:" + e1, z3.Store(len1, o, n))
         u.put_arr(st, "elt:" + e1, z3.Store(elt1, o, inner))
         idx1 = u.get_arr(st, "idx:" + e1, el)
